@@ -103,6 +103,9 @@ func VerifC11_CallStep() {
 // what the step handler of verifSignalStep returns (nil: "ok" with conforming data)
 var verifStepBehaviour func() (string, any)
 
+// the recording closures of the harness are themselves called from several goroutines
+var verifSeenMu sync.Mutex
+
 func verifSignalStep(initCount *int, seen *[]*verifStepData, sigCalls *int, smin *int64) CallableStep {
 	verifStepBehaviour = nil
 	return NewCallableStepWithSignals[*verifStepData, map[string]any](
@@ -116,17 +119,23 @@ func verifSignalStep(initCount *int, seen *[]*verifStepData, sigCalls *int, smin
 				verifScopeOf(map[string]*PropertySchema{"v": NewPropertySchema(NewIntSchema(smin, nil, nil), nil, true, nil, nil, nil, nil, nil)}, "Sig"),
 				nil,
 				func(ctx context.Context, d *verifStepData, in map[string]any) {
+					verifSeenMu.Lock()
 					*sigCalls = *sigCalls + 1
 					*seen = append(*seen, d)
+					verifSeenMu.Unlock()
 				}),
 		},
 		nil, nil,
 		func() *verifStepData {
+			verifSeenMu.Lock()
+			defer verifSeenMu.Unlock()
 			*initCount = *initCount + 1
 			return &verifStepData{id: *initCount}
 		},
 		func(ctx context.Context, d *verifStepData, in map[string]any) (string, any) {
+			verifSeenMu.Lock()
 			*seen = append(*seen, d)
+			verifSeenMu.Unlock()
 			if verifStepBehaviour != nil {
 				return verifStepBehaviour()
 			}
@@ -226,7 +235,10 @@ func VerifC11_StepDataOnce() {
 }
 
 // the same with the calls racing each other (every interleaving at synchronisation points, bounded preemptions)
-func VerifC11_StepDataOnceConc() {
+func VerifC11_StepDataOnceConc() { verifStepDataRace("C11/stepdata-conc") }
+
+// verifStepDataRace is shared with C13 (step calls from several goroutines behave as in isolation)
+func verifStepDataRace(prefix string) {
 	initCount, sigCalls := 0, 0
 	var seen []*verifStepData
 	var mu sync.Mutex
@@ -257,9 +269,15 @@ func VerifC11_StepDataOnceConc() {
 	if twoRuns {
 		runs = 2
 	}
-	verifAssert("C11/stepdata-conc/initializer-once-per-run", initCount == runs)
+	verifAssert(prefix+"/initializer-once-per-run", initCount == runs)
+	// every handler of a run saw that run's one step data
+	distinct := map[*verifStepData]bool{}
+	for _, d := range seen {
+		distinct[d] = true
+	}
+	verifAssert(prefix+"/one-data-object-per-run", len(distinct) == runs)
 	verifObserve("inits", initCount)
-	verifReach("C11/stepdata-conc/end")
+	verifReach(prefix + "/end")
 }
 
 // VerifC11_NoInitializer: the initializer is optional (NewCallableStepWithSignals checks it for nil). Without one the
